@@ -5,6 +5,7 @@
   OBLIGATIONS (audited by `check` with `#print axioms`):
     for_each_eq_fold, enum_is_collected, get_eq_first, pull_get, unique_nodup, dedup_first, dedup_order,
     break_stops, hash_order_irrelevant, wf_btree_fromInserts, wf_hash_fromInserts,
+    wf_frame_pushInto, frame_lookup, frame_keys,
     macro_get_eq_first, expand_wf, expand_wf_of_distinct, render_hole, macro_rename_breaks_lookup
 -/
 import EmitModel.Lemmas.Props
@@ -56,13 +57,22 @@ theorem get_eq_first : ∀ (p : P) (k : String), WF p → get p k = lookupFirst 
     rw [lookupFirst_enum_dedup]; simp only [Props.get]; exact get_eq_first p k (by simpa [WF] using h)
   | .empty, k, _ => by simp [Props.get, enum]
   | .macro es, k, _ => by simp only [Props.get, enum]; exact macroGet_eq es k
+  | .extentPoint _, k, _ => by simp only [Props.get]; exact scan_eq _ _
+  | .extentRange _ _, k, _ => by simp only [Props.get]; exact scan_eq _ _
+  | .spanCtxt _ _ _, k, _ => by simp only [Props.get]; exact scan_eq _ _
+  | .spanView _ _, k, _ => by simp only [Props.get]; exact scan_eq _ _
+  | .metricView _ _ _ _, k, _ => by simp only [Props.get]; exact scan_eq _ _
+  | .frame es, k, _ => by simp [Props.get, enum, hashGet]
+  | .slot _, k, _ => by simp only [Props.get]; exact scan_eq _ _
 
 /-- `pull` is `get` followed by the cast, also where `pull` is overridden (`&P`, `AsMap`). -/
 theorem pull_get : ∀ (p : P) (k : String), pullInt p k = (get p k).bind Val.castInt
   | .ref p, k => by simp only [pullInt, Props.get]; exact pull_get p k
   | .asMap p, k => by simp only [pullInt, Props.get]; exact pull_get p k
   | .pair _ _, _ | .slice _, _ | .arr _, _ | .btree _, _ | .hash _, _ | .optNone, _ | .optSome _, _
-  | .and _ _, _ | .boxed _, _ | .shared _, _ | .erased _, _ | .dedup _, _ | .empty, _ | .macro _, _ => by
+  | .and _ _, _ | .boxed _, _ | .shared _, _ | .erased _, _ | .dedup _, _ | .empty, _ | .macro _, _
+  | .extentPoint _, _ | .extentRange _ _, _ | .spanCtxt _ _ _, _ | .spanView _ _, _ | .metricView _ _ _ _, _
+  | .frame _, _ | .slot _, _ => by
     simp [pullInt]
 
 /-- **Uniqueness claims are honest.** A well-formed collection that claims `is_unique` never enumerates a key
@@ -90,6 +100,13 @@ theorem unique_nodup : ∀ (p : P), WF p → isUnique p = true → (keys (enum p
     · exact (sorted_collectFirst (cmp := compare) (enum p)).nodup_keys
   | .empty, _, _ => by simp [enum]
   | .macro es, h, _ => by simpa [WF, enum] using h
+  | .extentPoint _, _, h => by simp [isUnique] at h
+  | .extentRange _ _, _, h => by simp [isUnique] at h
+  | .spanCtxt _ _ _, _, h => by simp [isUnique] at h
+  | .spanView _ _, _, h => by simp [isUnique] at h
+  | .metricView _ _ _ _, _, h => by simp [isUnique] at h
+  | .frame es, h, _ => by simpa [WF, enum] using h
+  | .slot _, _, h => by simp [isUnique] at h
 
 /-- **De-duplication keeps the first value.** For every well-formed collection `p`, the enumeration of `p.dedup()`
     yields every key at most once, yields exactly the keys `p` yields, maps each key to the first value `p`
@@ -157,6 +174,43 @@ theorem wf_btree_fromInserts (xs : List (String × Val)) : WF (.btree (fromInser
     `hash_order_irrelevant` and the canonicalisation of hash segments in the harness the choice is unobservable). -/
 theorem wf_hash_fromInserts (xs : List (String × Val)) : WF (.hash (fromInserts compare xs)) := by
   simp only [WF]; exact (sorted_fromInserts (cmp := compare) xs).nodup_keys
+
+/-! ### Ambient snapshots -/
+
+theorem sorted_pushInto {cur : List (String × Val)} (h : Sorted compare cur) (pushed : List (String × Val)) :
+    Sorted compare (pushInto cur pushed) := by
+  unfold pushInto
+  induction pushed generalizing cur with
+  | nil => exact h
+  | cons a xs ih => exact ih (sorted_insertOverwrite h a.1 a.2)
+
+/-- A frame opened by `open_root`/`open_push` over a well-formed current frame is a well-formed `frame` node — so
+    `get_eq_first`, `unique_nodup` and `dedup_first` apply to every ambient snapshot, whatever was pushed. -/
+theorem wf_frame_pushInto {cur : List (String × Val)} (h : Sorted compare cur) (pushed : List (String × Val)) :
+    Sorted compare (pushInto cur pushed) ∧ WF (.frame (pushInto cur pushed)) := by
+  have hs := sorted_pushInto h pushed
+  exact ⟨hs, by simpa [WF] using hs.nodup_keys⟩
+
+/-- **A snapshot loses no key**, and what it keeps per key: the value of the LAST pair the pushed props enumerate for
+    it (`HashMap::insert` overwrites — unlike every other collection, where the first wins), else the value the
+    enclosing frame had. -/
+theorem frame_lookup {cur : List (String × Val)} (h : Sorted compare cur) (pushed : List (String × Val)) (q : String) :
+    lookupFirst q (pushInto cur pushed) = (lookupFirst q pushed.reverse).or (lookupFirst q cur) := by
+  unfold pushInto
+  induction pushed generalizing cur with
+  | nil => simp
+  | cons a xs ih =>
+    obtain ⟨k, v⟩ := a
+    rw [List.foldl_cons, ih (sorted_insertOverwrite h k v), lookupFirst_insertOverwrite h,
+      List.reverse_cons, lookupFirst_append, lookupFirst_cons]
+    cases lookupFirst q xs.reverse <;> by_cases e : k = q <;> simp [e]
+
+theorem frame_keys {cur : List (String × Val)} (h : Sorted compare cur) (pushed : List (String × Val)) (q : String) :
+    q ∈ keys (pushInto cur pushed) ↔ q ∈ keys pushed ∨ q ∈ keys cur := by
+  rw [← lookupFirst_isSome_iff, frame_lookup h, ← lookupFirst_isSome_iff, ← lookupFirst_isSome_iff]
+  have : (lookupFirst q pushed.reverse).isSome = (lookupFirst q pushed).isSome := by
+    rw [Bool.eq_iff_iff, lookupFirst_isSome_iff, lookupFirst_isSome_iff]; simp [keys]
+  cases h1 : lookupFirst q pushed.reverse <;> cases h2 : lookupFirst q pushed <;> simp_all
 
 /-! ### The macro-built collection -/
 
